@@ -1,12 +1,16 @@
 /-
   The online monitor run through the *translated* operation classes (`GeneratedOps.lean`) and the
-  semantics of the Python subset (`Sem.lean`), with the same glue as `stepTree` (children first, then
-  the node's operation object).  Used by the driver (`ondgen`, `ondgenreset`): the correspondence check
+  semantics of the Python subset (`Sem.lean`).  Which class is constructed for which node, with which
+  arguments, is read from the table extracted from the construction visitor (`GeneratedOnCtor.lean`);
+  the update / reset visitors' order (children first, then the node's operation object) is hand-written
+  like `stepTree`.  Used by the driver (`ondgen`, `ondgenreset`): the correspondence check
   compares the real monitor with this run too, which validates the semantics given to the Python
   subset, and with the hand-written mirror (`ond`), which the theorems of `RtamtProofs/GenOps.lean`
   prove equal.
 -/
 import Rtamt.Py.GeneratedOps
+import Rtamt.Py.GeneratedOnCtor
+import Rtamt.Py.RunOff
 import Rtamt.Discrete.Online
 
 namespace Rtamt.Py
@@ -20,64 +24,77 @@ inductive GTree (α : Type)
   | n2 (c : Class) (s : Store α) (l r : GTree α)
   deriving Inhabited
 
-def clsUn : Un → Class
-  | .abs => Gen.AbsOperation | .sqrt => Gen.SqrtOperation | .exp => Gen.ExpOperation | .ln => Gen.LnOperation
-  | .negate => Gen.NegateOperation | .not => Gen.NotOperation
+/-- The operation class of a given name among the translated classes. -/
+def classByName (n : String) : Option Class := Gen.all.find? (fun c => c.name == n)
 
-def clsBin : Bin → Except PyErr (Class × List (V α))
-  | .add => .ok (Gen.AdditionOperation, []) | .sub => .ok (Gen.SubtractionOperation, [])
-  | .mul => .ok (Gen.MultiplicationOperation, []) | .div => .ok (Gen.DivisionOperation, [])
-  | .pow => .ok (Gen.PowOperation, []) | .log => .ok (Gen.LogOperation, [])
-  | .and => .ok (Gen.AndOperation, []) | .or => .ok (Gen.OrOperation, [])
-  | .implies => .ok (Gen.ImpliesOperation, []) | .iff => .ok (Gen.IffOperation, []) | .xor => .ok (Gen.XorOperation, [])
-  | .pred c => .ok (Gen.PredicateOperation, [.cmp c])
-  | _ => .error .other                      -- the interface-aware forms are not run through the generated classes
+/-- What the construction visitor does for a node class (`GeneratedOnCtor.lean`, extracted from the source). -/
+def ctorOf (k : Kind) : Option CtorAction := Gen.OnCtor.table.lookup (visitName k)
 
-def clsT1 : T1 → Except PyErr Class
-  | .rise => .ok Gen.RiseOperation | .fall => .ok Gen.FallOperation | .prev => .ok Gen.PreviousOperation
-  | .sprev => .ok Gen.StrongPreviousOperation | .once => .ok Gen.OnceOperation | .hist => .ok Gen.HistoricallyOperation
-  | _ => .error .rtamt
+/-- `online_operator_dict[node.name] = Cls(args…)`: the class and the freshly constructed object.  A `visitX` that only raises
+    gives RTAMTException; a node class the visitor does not override registers no operator, and the first update fails with
+    KeyError. -/
+def buildOp (k : Kind) (operator : Option Cmp) (iv : Option (Nat × Nat)) : Except PyErr (Class × Store α) :=
+  match ctorOf k with
+  | some (.builds cls args) => do
+      match classByName cls with
+      | none => throw .other
+      | some c =>
+          let vs ← args.mapM (fun a => match a, operator, iv with
+            | .operator, some o, _ => (.ok (.cmp o) : Except PyErr (V α))
+            | .begin_, _, some (a, _) => .ok (.int a)
+            | .end_, _, some (_, b) => .ok (.int b)
+            | _, _, _ => .error .type)
+          let s ← construct c vs
+          pure (c, s)
+  | some .raises => .error .rtamt
+  | some (.unsupported _) => .error .other
+  | none => .error .key
 
-def clsTB1 : TB1 → Except PyErr Class
-  | .once => .ok Gen.OnceTimedOperation | .hist => .ok Gen.HistoricallyTimedOperation
-  | _ => .error .rtamt
-
-def clsTB2 : TB2 → Except PyErr Class
-  | .since => .ok Gen.SinceTimedOperation | .precedes => .ok Gen.PrecedesTimedOperation
-  | _ => .error .rtamt
+/-- A `visitX` that only raises does so before the children are visited. -/
+def raisesFirst (k : Kind) : Except PyErr Unit :=
+  match ctorOf k with
+  | some .raises => .error .rtamt
+  | _ => .ok ()
 
 def initG : F α → Except PyErr (GTree α)
   | .var _ => .ok .leaf
   | .const _ => .ok .leaf
   | .un op φ => do
+      raisesFirst op.kind
       let k ← initG φ
-      let c := clsUn op
-      pure (.n1 c (← construct c []) k)
+      let (c, s) ← buildOp op.kind none none
+      pure (.n1 c s k)
   | .bin op φ ψ => do
+      raisesFirst op.kind
       let l ← initG φ
       let r ← initG ψ
-      let (c, args) ← clsBin op
-      pure (.n2 c (← construct c args) l r)
-  | .tmp1 op φ => do
-      let c ← clsT1 op
-      let k ← initG φ
-      pure (.n1 c (← construct c []) k)
-  | .tmp2 op φ ψ => do
       match op with
-      | .since =>
-          let l ← initG φ
-          let r ← initG ψ
-          pure (.n2 Gen.SinceOperation (← construct Gen.SinceOperation []) l r)
-      | .until => throw .rtamt
-  | .tb1 op a b φ => do
-      let c ← clsTB1 op
+      | .predSat _ | .predZero => throw .other        -- the interface-aware forms are not run through the generated classes
+      | _ =>
+        let (c, s) ← buildOp op.kind (match op with | .pred o => some o | _ => none) none
+        pure (.n2 c s l r)
+  | .tmp1 op φ => do
+      raisesFirst op.kind
       let k ← initG φ
-      pure (.n1 c (← construct c [.int a, .int b]) k)
-  | .tb2 op a b φ ψ => do
-      let c ← clsTB2 op
+      let (c, s) ← buildOp op.kind none none
+      pure (.n1 c s k)
+  | .tmp2 op φ ψ => do
+      raisesFirst op.kind
       let l ← initG φ
       let r ← initG ψ
-      pure (.n2 c (← construct c [.int a, .int b]) l r)
+      let (c, s) ← buildOp op.kind none none
+      pure (.n2 c s l r)
+  | .tb1 op a b φ => do
+      raisesFirst op.kind
+      let k ← initG φ
+      let (c, s) ← buildOp op.kind none (some (a, b))
+      pure (.n1 c s k)
+  | .tb2 op a b φ ψ => do
+      raisesFirst op.kind
+      let l ← initG φ
+      let r ← initG ψ
+      let (c, s) ← buildOp op.kind none (some (a, b))
+      pure (.n2 c s l r)
 
 def stepG (env : String → α) : F α → GTree α → Except PyErr (GTree α × α)
   | .var x, .leaf => .ok (.leaf, env x)
